@@ -50,6 +50,11 @@ def gen_scenarios(seed, tier):
                  when=rng.choice([0, 0, 0.5, 1.0, 1.0, 2.0, 2.5, 5.0]), keep=rng.random() < 0.6, seed=rng.randrange(1 << 30),
                  tmo=rng.choice([50.0, 1.0, 1.0, 2.0]), cancel_one=rng.random() < 0.5)
         d.update(schedule_modes(rng))
+        # a future cancelled by its user just before the trigger (with 3 submissions over a throttle of 2 / a busy pool it is still
+        # QUEUED in the library) and kept by the user: a done future must not keep its executor - and with it the worker - alive
+        d["cancel_before"] = rng.random() < 0.35
+        if d["cancel_before"] and rng.random() < 0.6:
+            d.update(nsub=3, keep=True, durs=[rng.choice([1.0, 2.0, 3.0]) for _ in range(3)], when=rng.choice([0, 0, 0.5]))
         if i % 10 == 9:
             # the retry executor asleep in a long back-off for a failed attempt: cancel-and-drop, or drop everything, in the middle of it
             d.update(kind="retry", trigger=rng.choice(["backoff-cancel", "backoff-drop"]), nsub=rng.choice([1, 2]),
@@ -193,6 +198,8 @@ def run_one(desc):
         if trig == "release" and desc.get("cancel_one") and futs:
             # a cancel while the attempt may be in flight: whatever it returns, nothing of that submission may be retained
             futs[-1].cancel()
+        if desc.get("cancel_before") and futs and trig in ("drop", "shutdown", "exit"):
+            st["cancel_before"] = futs[-1].cancel()
         if trig == "drop":
             del ex
             gc.collect()
@@ -268,6 +275,8 @@ def run_one(desc):
                                 "(nsub=%d, when=%s)" % (kind, trig, desc["nsub"], desc["when"])))
             if trig in ("drop",):
                 want = {k: ("ok", ("res", k)) for k in range(st["nf"])}
+                if st.get("cancel_before") is True:
+                    want[st["nf"] - 1] = ("cancelled",)
                 # a pending future the user still holds must be completed; futures the user dropped as well are garbage together
                 # with their executor (nobody can observe them) and may legitimately never run
                 if desc["kind"] == "timeout" and desc.get("tmo", 50.0) < 10:
